@@ -278,14 +278,15 @@ ZERO_QUICK_CRLF = [(1, Z), (Z, 2, Z)]
 ZERO_QUICK_LOW = [(2, Z), (Z, 1, Z)]
 WIDE_QUICK_FIRST = [(W, 2, 1, W)]
 WIDE_QUICK_LAZY = [(W, W, 1, 1, W)]
-WIDE_QUICK_CRLF = [(W, 1, 2, W)]
+WIDE_QUICK_CRLF = [(W, 1, W)]
 WIDE_QUICK_LOW = [(W, 1, W)]
 ZERO_N4 = [(Z, Z, Z, Z), (1, Z, Z, 2), (Z, 5, 2, Z), (5, Z, 1, Z), (2, 2, Z, 5), (Z, 1, 5, 1)]
 WIDE_ALLK = [(W, 1, W), (W, 2, 1, W), (W, W, 1, 1, W)]
-WIDE_NEAR_LAZY = [(W, 1), (W, W), (W, 1, 1), (W, W, 1), (W, 2, W, 1), (W, 1, W, 1, 2, W)]
-WIDE_NEAR = [(1, W), (W, 2), (2, W), (1, W, 1), (W, 1, 2), (W, 5, 1, W), (W, 1, 1, 1, W)]
-WIDE_CRLF = [(W, 1), (W, 1, W), (W, 2, 1, W), (W, W, 1, 1, W)]
-WIDE_LOW = [(W, 1, W), (W, 2, 1, W)]
+WIDE_NEAR_LAZY = [(W, 1), (W, W, 1)]
+WIDE_NEAR = [(1, W), (2, W), (W, 1, 2), (W, 5, 1, W)]
+WIDE_6 = [(W, 1, W, 1, 2, W)]
+WIDE_CRLF = [(W, 1), (W, 2, 1, W)]
+WIDE_LOW = [(W, 1, W)]
 
 
 def plan(tier):
@@ -356,7 +357,8 @@ def plan(tier):
         for f in xfiles(ZERO_QUICK_CRLF + WIDE_QUICK_CRLF, cr, (True,)):
             yield f + (both, E, ("open",), "tight")
         for f in xfiles(ZERO_QUICK_LOW + WIDE_QUICK_LOW, lf, (True,)):
-            yield f + (both, (None,), ("fileobj",), "tight")
+            if W not in f[1]:
+                yield f + (both, (None,), ("fileobj",), "tight")
             yield f + (("gzipm",), (False,), ("open",), "tight")
     else:
         def low_level(tuples, crlfs, lvl):
@@ -396,21 +398,29 @@ def plan(tier):
         # zero-length records: every tuple over {0, 1, 2, 5} of 1..3 records with at least one 0, every chunk size
         zc = (Z,) + SIZES
         zero_all = [t for n in (1, 2, 3) for t in itertools.product(zc, repeat=n) if Z in t]
-        for f in xfiles(zero_all, lf):
+        # (3 records: every chunk size for the tuples with an even sum, the neighbourhoods for the others)
+        for f in xfiles([t for t in zero_all if len(t) < 3], lf):
             yield f + (both, EL, ("open",), "all")
+        for f in xfiles([t for t in zero_all if len(t) == 3], lf):
+            yield f + (both, E, ("open",), "all" if sum(f[1]) % 2 == 0 else "near")
+        for f in xfiles([t for t in zero_all if len(t) == 3 and sum(t) % 3 == 0], lf):
+            yield f + (both, (True,), ("open",), "near")
         for f in xfiles(ZERO_N4, lf):
-            yield f + (both, EL, ("open",), "near")
-        for f in xfiles([t for t in zero_all if len(t) < 3 or sum(t) % 2 == 0], cr):
-            yield f + (both, E if len(f[1]) == 3 else EL, ("open",), "near")
-        for t in low_x(xfiles([(Z,), (2, Z), (Z, 5), (Z, 1, Z), (5, Z, 2), (1, 2, Z)], lf), "all"):
+            yield f + (both, EL if f[1] in ZERO_N4[:3] else E, ("open",), "near")
+        for f in xfiles([t for t in zero_all if len(t) < 3 or sum(t) % 4 == 0], cr):
+            yield f + (both, E, ("open",), "near")
+        for t in low_x(xfiles([(Z,), (2, Z), (Z, 5), (Z, 1, Z), (1, 2, Z)], lf), "all"):
             yield t
         # numbers of width 1..2 and 9 in one column
         for f in xfiles(WIDE_ALLK, lf):
-            yield f + (both, E, ("open",), "all")
+            if len(f[1]) < 5 or f[2]:
+                yield f + (both, E, ("open",), "all")
         for f in xfiles(WIDE_NEAR_LAZY, lf):
             yield f + (both, EL, ("open",), "near")
         for f in xfiles(WIDE_NEAR, lf):
             yield f + (both, E, ("open",), "near")
+        for f in xfiles(WIDE_6, lf, (True,)):
+            yield f + (both, (True,), ("open",), "near")
         for f in xfiles(WIDE_CRLF, cr):
             yield f + (both, E, ("open",), "near")
         for t in low_x(xfiles(WIDE_LOW, lf), "near"):
@@ -519,10 +529,10 @@ def run(tier="quick", seed=0):
                   "zero_length_records": ("FASTA/FASTQ files with size class 0 (empty sequence / quality line): %r, CRLF %r, low-level route %r; "
                                           "a last zero-length record only with a final newline"
                                           % (ZERO_QUICK_FIRST + ZERO_QUICK, ZERO_QUICK_CRLF, ZERO_QUICK_LOW)) if tier == "quick" else
-                                         ("every tuple over {0,1,2,5} of 1..3 records with a 0 (every chunk size; CRLF: near), 4 records: %r" % (ZERO_N4,)),
+                                         ("every tuple over {0,1,2,5} of 1..3 records with a 0 (every chunk size; 3 records with an odd sum and CRLF: near), 4 records: %r" % (ZERO_N4,)),
                   "mixed_width_numbers": ("delimited files with size class 9 (1-letter names, 9-digit coordinates; GTF 10 digits) next to 1 and 2: %r"
                                           % (WIDE_QUICK_FIRST + WIDE_QUICK_LAZY + WIDE_QUICK_CRLF + WIDE_QUICK_LOW,)) if tier == "quick" else
-                                         ("every chunk size: %r; near: %r; CRLF (not SAM): %r" % (WIDE_ALLK, WIDE_NEAR_LAZY + WIDE_NEAR, WIDE_CRLF)),
+                                         ("every chunk size: %r; near: %r; CRLF (not SAM): %r" % (WIDE_ALLK, WIDE_NEAR_LAZY + WIDE_NEAR + WIDE_6, WIDE_CRLF)),
                   "sampled_new_classes": "seeded files of 5..12 entries over {0,1,2,5} (FASTA/FASTQ) / {9,1,2} (delimited, first line wide)",
                   "worker_processes": workers}
     deadline = col.t0 + col.budget_s
